@@ -29,6 +29,7 @@ program drv_f
   use simc_mod
 #else
   use simlib_mod
+  use simlib_deep_mod, only : vec_ret_l
 #endif
   use drv_hook
   implicit none
@@ -336,6 +337,15 @@ contains
        allocate(dv(a + 1)); dv = -1.0d0
        call sim_phase(1); call arr_fill_out(int(a, C_INT), dv); call sim_phase(0)
        call res_arr(size(dv), int(sum(dv) * 2)); deallocate(dv)
+#endif
+#ifndef SIMC
+    case ("vec_ret_l")
+       block
+         integer(C_LONG), allocatable :: lv(:)
+         call sim_phase(1); lv = vec_ret_l(int(a, C_INT)); call sim_phase(0)
+         sz = size(lv); sm = 0; if (sz > 0) sm = int(sum(lv))
+         call res_arr(sz, sm); deallocate(lv)
+       end block
 #endif
 #ifndef SIMC
     case ("ref_item")
